@@ -980,6 +980,162 @@ theorem encodeTarget_clean (t s : Str) (hv : ∀ c ∈ t, c < 0x110000) (h : enc
         · simp at hc
   · simp at h
 
+/-! ## the `read(blocksize)` loop over a read script yields all the data, whatever the script -/
+
+theorem readAt_zero (ps : List (List Nat)) : ∀ k, readAt 0 ps k = [] := by
+  induction ps with
+  | nil => intro k; rfl
+  | cons p ps ih =>
+    intro k
+    simp only [readAt]
+    split
+    · rfl
+    · split
+      · simp
+      · exact ih _
+
+/-- a `read(n)` result followed by everything after it is everything from the offset on -/
+theorem readAt_append_drop (n : Nat) (ps : List (List Nat)) : ∀ k,
+    readAt n ps k ++ (scriptData ps).drop (k + (readAt n ps k).length) = (scriptData ps).drop k := by
+  induction ps with
+  | nil => intro k; simp [readAt, scriptData]
+  | cons p ps ih =>
+    intro k
+    simp only [readAt, scriptData]
+    by_cases hp : p.isEmpty = true
+    · simp [hp]
+    · simp only [hp, if_false, Bool.false_eq_true]
+      by_cases hk : k < p.length
+      · simp only [hk, if_true]
+        have hl : ((p.drop k).take n).length = min n (p.length - k) := by simp
+        have h1 : k + ((p.drop k).take n).length ≤ p.length := by rw [hl]; omega
+        rw [List.drop_append_of_le_length h1, List.drop_append_of_le_length (Nat.le_of_lt hk), ← List.append_assoc]
+        congr 1
+        have : p.drop (k + ((p.drop k).take n).length) = (p.drop k).drop n := by
+          rw [List.drop_drop, hl]
+          by_cases hn : n ≤ p.length - k
+          · rw [Nat.min_eq_left hn, Nat.add_comm]
+          · have e1 : min n (p.length - k) = p.length - k := Nat.min_eq_right (by omega)
+            rw [e1, List.drop_of_length_le (by omega), List.drop_of_length_le (by omega)]
+        rw [this, List.take_append_drop]
+      · simp only [hk, if_false]
+        have hk' : p.length ≤ k := Nat.le_of_not_lt hk
+        have e1 : (p ++ scriptData ps).drop k = (scriptData ps).drop (k - p.length) := by
+          rw [List.drop_append, List.drop_of_length_le hk', List.nil_append]
+        have e2 : (p ++ scriptData ps).drop (k + (readAt n ps (k - p.length)).length)
+            = (scriptData ps).drop (k - p.length + (readAt n ps (k - p.length)).length) := by
+          rw [List.drop_append, List.drop_of_length_le (by omega), List.nil_append]
+          congr 1; omega
+        rw [e1, e2]
+        exact ih _
+
+/-- with a positive size a `read()` comes back empty exactly at (or after) the end of the data: a short
+read is never the end -/
+theorem readAt_eq_nil_iff {n : Nat} (hn : 0 < n) (ps : List (List Nat)) : ∀ k,
+    readAt n ps k = [] ↔ (scriptData ps).length ≤ k := by
+  induction ps with
+  | nil => intro k; simp [readAt, scriptData]
+  | cons p ps ih =>
+    intro k
+    simp only [readAt, scriptData]
+    by_cases hp : p.isEmpty = true
+    · simp [hp]
+    · simp only [hp, if_false, Bool.false_eq_true]
+      by_cases hk : k < p.length
+      · simp only [hk, if_true, List.length_append]
+        constructor
+        · intro h
+          have : ((p.drop k).take n).length = 0 := by rw [h]; rfl
+          simp at this
+          omega
+        · intro h; omega
+      · simp only [hk, if_false, List.length_append]
+        rw [ih]
+        omega
+
+/-- same file object, possibly at another position -/
+def SameFile (f0 f : FileB) : Prop :=
+  f.pieces = f0.pieces ∧ f.seek = f0.seek ∧ f.tell = f0.tell ∧ f.text = f0.text
+
+theorem sameFile_content {f0 f : FileB} (h : SameFile f0 f) : f.content = f0.content := by
+  unfold FileB.content; rw [h.1]
+
+theorem chunkReadableAux_same (n : Nat) : ∀ (fuel : Nat) (f : FileB), SameFile f (chunkReadableAux n fuel f).2 := by
+  intro fuel
+  induction fuel with
+  | zero => intro f; exact ⟨rfl, rfl, rfl, rfl⟩
+  | succ fuel ih =>
+    intro f
+    simp only [chunkReadableAux]
+    split
+    · exact ⟨rfl, rfl, rfl, rfl⟩
+    · obtain ⟨h1, h2, h3, h4⟩ := ih (f.read n).2
+      exact ⟨h1, h2, h3, h4⟩
+
+/-- The loop of `chunk_readable()` over **any** read script (induction over the reads): with a positive
+block size and enough fuel the blocks it yields are non-empty, concatenate to all the data from the
+current offset on — however short the individual reads were — and the file is left at the end of the
+data (or where it was, if that was beyond the end). -/
+theorem chunkReadableAux_spec {n : Nat} (hn : 0 < n) : ∀ (fuel : Nat) (f : FileB),
+    f.content.length < fuel + f.pos →
+    (chunkReadableAux n fuel f).1.flatten = f.content.drop f.pos ∧
+    (chunkReadableAux n fuel f).2 = { f with pos := max f.pos f.content.length } ∧
+    ∀ d ∈ (chunkReadableAux n fuel f).1, d ≠ [] := by
+  intro fuel
+  induction fuel with
+  | zero =>
+    intro f hf
+    have hle : f.content.length ≤ f.pos := by omega
+    refine ⟨by simp [chunkReadableAux, List.drop_of_length_le hle], ?_, by simp [chunkReadableAux]⟩
+    simp only [chunkReadableAux, Nat.max_eq_left hle]
+  | succ fuel ih =>
+    intro f hf
+    have happ := readAt_append_drop n f.pieces f.pos
+    have hnil := readAt_eq_nil_iff hn f.pieces f.pos
+    simp only [chunkReadableAux, FileB.read]
+    by_cases hd : (readAt n f.pieces f.pos).isEmpty = true
+    · have hd' : readAt n f.pieces f.pos = [] := List.isEmpty_iff.mp hd
+      have hle : f.content.length ≤ f.pos := hnil.mp hd'
+      simp only [hd, if_true]
+      refine ⟨by simp [List.drop_of_length_le hle], ?_, by simp⟩
+      simp [hd', Nat.max_eq_left hle]
+    · simp only [hd, if_false, Bool.false_eq_true]
+      have hne : readAt n f.pieces f.pos ≠ [] := fun h => hd (by simp [h])
+      have hlt : f.pos < f.content.length := by
+        apply Nat.lt_of_not_le
+        intro hle
+        exact hne (hnil.mpr hle)
+      have hpos : 0 < (readAt n f.pieces f.pos).length := List.length_pos_iff.mpr hne
+      have hlen := congrArg List.length happ
+      simp only [List.length_append, List.length_drop] at hlen
+      have hc : f.content.length = (scriptData f.pieces).length := rfl
+      obtain ⟨h1, h2, h3⟩ := ih { f with pos := f.pos + (readAt n f.pieces f.pos).length } (by
+        show f.content.length < fuel + (f.pos + _)
+        omega)
+      refine ⟨?_, ?_, ?_⟩
+      · simp only [List.flatten_cons]
+        rw [h1]
+        exact happ
+      · rw [h2]
+        show ({ f with pos := max (f.pos + (readAt n f.pieces f.pos).length) f.content.length } : FileB) = _
+        congr 1
+        omega
+      · intro d hdm
+        simp only [List.mem_cons] at hdm
+        rcases hdm with rfl | hdm
+        · exact hne
+        · exact h3 d hdm
+
+theorem chunkReadable_spec {n : Nat} (hn : 0 < n) (f : FileB) :
+    (chunkReadable n f).1.flatten = f.content.drop f.pos ∧
+    (chunkReadable n f).2 = { f with pos := max f.pos f.content.length } ∧
+    ∀ d ∈ (chunkReadable n f).1, d ≠ [] :=
+  chunkReadableAux_spec hn _ f (by omega)
+
+/-- `blocksize = 0`: the first `read(0)` is empty, nothing is sent and the file is not moved -/
+theorem chunkReadable_zero (f : FileB) : chunkReadable 0 f = ([], f) := by
+  simp [chunkReadable, chunkReadableAux, FileB.read, readAt_zero]
+
 /-! ## re-sending: the invariant of `urlopen`'s recursion -/
 
 /-- bodies whose iteration leaves them unchanged and that need no re-positioning -/
@@ -1019,10 +1175,6 @@ theorem recordPos_stable {b : Body} (hb : Stable b) : recordPos b = .none := by
 theorem setFilePosition_stable {b : Body} (hb : Stable b) : setFilePosition b .none = .ok (b, .none) := by
   simp [setFilePosition, recordPos_stable hb]
 
-/-- same file object, possibly at another position -/
-def SameFile (f0 f : FileB) : Prop :=
-  f.content = f0.content ∧ f.seek = f0.seek ∧ f.tell = f0.tell ∧ f.text = f0.text
-
 theorem request_after_file (cfg : Cfg) (m t : Str) (hs : List (Str × Str)) (f : FileB) (ch : Bool) :
     ∃ f', (request cfg m t hs (.file f) ch).after = .file f' ∧ SameFile f f' := by
   unfold request
@@ -1032,7 +1184,7 @@ theorem request_after_file (cfg : Cfg) (m t : Str) (hs : List (Str × Str)) (f :
     obtain ⟨l0, cc, fr, ua, hs', _, _, hcc, _, _, _, rfl⟩ := prepare_inv hp
     simp [bodyToChunks] at hcc
     subst hcc
-    exact ⟨_, rfl, rfl, rfl, rfl, rfl⟩
+    exact ⟨_, rfl, chunkReadableAux_same _ _ f⟩
 
 theorem sameFile_eq {f0 f : FileB} (h : SameFile f0 f) : { f with pos := f0.pos } = f0 := by
   obtain ⟨h1, h2, h3, h4⟩ := h
@@ -1338,28 +1490,6 @@ theorem trimOWS_toDec (n : Nat) : trimOWS (toDec n) = toDec n := by
   simp [isDigitC] at this
   simp [isWS]; omega
 
-/-! ## blocksize reads concatenate to the content -/
-
-theorem blocks_go_flatten (n : Nat) (hn : 0 < n) : ∀ (fuel : Nat) (l : List Nat), l.length ≤ fuel →
-    (blocks.go n fuel l).flatten = l := by
-  intro fuel
-  induction fuel with
-  | zero => intro l hl; have : l = [] := List.eq_nil_of_length_eq_zero (by omega); subst this; simp [blocks.go]
-  | succ f ih =>
-    intro l hl
-    cases l with
-    | nil => simp [blocks.go]
-    | cons x t =>
-      simp only [blocks.go, List.flatten_cons]
-      rw [ih _ (by simp at hl ⊢; omega)]
-      exact List.take_append_drop n (x :: t)
-
-theorem blocks_flatten (n : Nat) (hn : 0 < n) (l : List Nat) : (blocks n l).flatten = l := by
-  unfold blocks
-  have : n ≠ 0 := by omega
-  simp only [this, if_false]
-  exact blocks_go_flatten n hn _ l (Nat.le_refl _)
-
 theorem chunkBytes_str_append (a b : Str) :
     chunkBytes (.str (a ++ b)) = (do let x ← chunkBytes (.str a); let y ← chunkBytes (.str b); pure (x ++ y)) := by
   simp only [chunkBytes, List.any_append, utf8SP, List.flatMap_append]
@@ -1450,12 +1580,12 @@ theorem bodyToChunks_spec {body : Body} {m : Str} {bs : Nat} {cc : ChunksCL} (hb
       cases f.text with
       | true =>
         simp only [if_true]
-        have : (blocks bs (f.content.drop f.pos)).map (fun d => Chunk.str d) = (blocks bs (f.content.drop f.pos)).map Chunk.str := rfl
-        rw [this, chunksPayload_str_blocks, blocks_flatten bs hbs]
+        have : (chunkReadable bs f).1.map (fun d => Chunk.str d) = (chunkReadable bs f).1.map Chunk.str := rfl
+        rw [this, chunksPayload_str_blocks, (chunkReadable_spec hbs f).1]
       | false =>
         simp only [Bool.false_eq_true, if_false]
-        have : (blocks bs (f.content.drop f.pos)).map (fun d => Chunk.bytes d) = (blocks bs (f.content.drop f.pos)).map Chunk.bytes := rfl
-        rw [this, chunksPayload_bytes_blocks, blocks_flatten bs hbs]
+        have : (chunkReadable bs f).1.map (fun d => Chunk.bytes d) = (chunkReadable bs f).1.map Chunk.bytes := rfl
+        rw [this, chunksPayload_bytes_blocks, (chunkReadable_spec hbs f).1]
         simp [chunkBytes]
     · intro c hc
       simp only [List.mem_map] at hc
@@ -1532,6 +1662,84 @@ theorem sendChunks_spec (cs : List Chunk) (hw : ∀ c ∈ cs, wellSized c) (chun
         · simp [chunksPayload, hc1, h2]
         · simp only [hlen, if_false, h3, hc2]
           cases chunked <;> simp [frameData]
+
+/-! ### file-like bodies with an arbitrary read script -/
+
+/-- a script without an empty piece hands out the concatenation of all its pieces -/
+theorem scriptData_eq_flatten (ps : List (List Nat)) (h : ∀ p ∈ ps, p ≠ []) : scriptData ps = ps.flatten := by
+  induction ps with
+  | nil => rfl
+  | cons p t ih =>
+    have hp : p.isEmpty = false := by
+      have := h p (by simp)
+      cases p with
+      | nil => exact absurd rfl this
+      | cons _ _ => rfl
+    simp only [scriptData, hp, List.flatten_cons]
+    rw [ih (fun q hq => h q (by simp [hq]))]
+    simp
+
+/-- in general: the concatenation of the pieces before the first empty one -/
+theorem scriptData_eq_takeWhile (ps : List (List Nat)) :
+    scriptData ps = (ps.takeWhile fun p => !p.isEmpty).flatten := by
+  induction ps with
+  | nil => rfl
+  | cons p t ih =>
+    simp only [scriptData, List.takeWhile_cons]
+    cases hp : p.isEmpty <;> simp [ih]
+
+/-- the body loop over binary blocks: nothing can fail, every non-empty block becomes one chunk (or is
+written as it is under Content-Length framing) -/
+theorem sendChunks_bytes (chunked : Bool) (bl : List Bytes) (hne : ∀ d ∈ bl, d ≠ []) :
+    (sendChunks chunked (bl.map Chunk.bytes)).err = none ∧
+    (sendChunks chunked (bl.map Chunk.bytes)).written = if chunked then frameData bl else bl.flatten := by
+  induction bl with
+  | nil => cases chunked <;> simp [sendChunks, frameData]
+  | cons d t ih =>
+    have hd : d.length ≠ 0 := fun h => hne d (by simp) (List.eq_nil_of_length_eq_zero h)
+    obtain ⟨h1, h2⟩ := ih (fun x hx => hne x (by simp [hx]))
+    simp only [List.map_cons, sendChunks, Chunk.len, hd, if_false, Chunk.data, Chunk.sizeLine, h1, h2]
+    cases chunked <;> simp [frameData]
+
+/-- what `body_to_chunks` makes of a file-like body, whatever its read script: no Content-Length, the
+blocks of `chunk_readable()`, and the file left at the end of its data -/
+theorem bodyToChunks_file (f : FileB) (meth : Str) {bs : Nat} (hbs : 0 < bs) :
+    bodyToChunks (.file f) meth bs =
+      .ok ⟨some ((chunkReadable bs f).1.map fun d => if f.text then Chunk.str d else Chunk.bytes d), none,
+           .file { f with pos := max f.pos f.content.length }⟩ := by
+  simp only [bodyToChunks]
+  rw [(chunkReadable_spec hbs f).2.1]
+
+/-- the body loop over a file-like body with **any** read script: if nothing fails (only the encoding
+of a text piece can) the bytes written are the chunk framing of non-empty pieces that concatenate to
+the payload — all the data from the current offset on — resp. the payload itself -/
+theorem file_body_loop (f : FileB) (meth : Str) {bs : Nat} (hbs : 0 < bs) (chunked : Bool) :
+    ∃ cc cs, bodyToChunks (.file f) meth bs = .ok cc ∧ cc.chunks = some cs ∧ cc.contentLength = none ∧
+      ((sendChunks chunked cs).err = none →
+        ∃ ds : List Bytes, (∀ d ∈ ds, d ≠ []) ∧ payload (.file f) = some ds.flatten ∧
+          (sendChunks chunked cs).written = if chunked then frameData ds else ds.flatten) := by
+  refine ⟨_, _, bodyToChunks_file f meth hbs, rfl, rfl, ?_⟩
+  intro hok
+  have hspec := bodyToChunks_spec (m := meth) hbs (body := .file f) trivial (bodyToChunks_file f meth hbs)
+  simp only at hspec
+  obtain ⟨ds, h1, h2, h3⟩ := sendChunks_spec _ hspec.1.2 chunked hok
+  exact ⟨ds, h1, by rw [← hspec.1.1]; exact h2, h3⟩
+
+/-- … and for a binary file nothing can fail: each `read()` result is one chunk -/
+theorem file_body_loop_binary (f : FileB) (hb : f.text = false) (meth : Str) {bs : Nat} (hbs : 0 < bs)
+    (chunked : Bool) :
+    ∃ cc cs, bodyToChunks (.file f) meth bs = .ok cc ∧ cc.chunks = some cs ∧ cc.contentLength = none ∧
+      (sendChunks chunked cs).err = none ∧
+      (sendChunks chunked cs).written =
+        (if chunked then frameData (chunkReadable bs f).1 else (chunkReadable bs f).1.flatten) ∧
+      (chunkReadable bs f).1.flatten = f.content.drop f.pos ∧ (∀ d ∈ (chunkReadable bs f).1, d ≠ []) := by
+  obtain ⟨h1, _, h3⟩ := chunkReadable_spec hbs f
+  refine ⟨_, _, bodyToChunks_file f meth hbs, rfl, rfl, ?_⟩
+  simp only [hb, Bool.false_eq_true, if_false]
+  have e : (chunkReadable bs f).1.map (fun d => Chunk.bytes d) = (chunkReadable bs f).1.map Chunk.bytes := rfl
+  rw [e]
+  obtain ⟨g1, g2⟩ := sendChunks_bytes chunked _ h3
+  exact ⟨g1, g2, h1, h3⟩
 
 theorem framing_cases (keys : List Str) (ch : Bool) (chunks : Option (List Chunk)) (cl : Option Nat)
     (fr : Framing) (h : framing keys ch chunks cl = .ok fr)
@@ -1808,12 +2016,12 @@ theorem bodyToChunks_lazy {body : Body} {m : Str} {bs : Nat} {cc : ChunksCL} {cs
     cases ht : f.text with
     | true =>
       simp only [ht, if_true] at hn
-      have e : (blocks bs (f.content.drop f.pos)).map (fun d => Chunk.str d) = (blocks bs (f.content.drop f.pos)).map Chunk.str := rfl
-      rw [e, chunksPayload_str_blocks, blocks_flatten bs hbs] at hn
+      have e : (chunkReadable bs f).1.map (fun d => Chunk.str d) = (chunkReadable bs f).1.map Chunk.str := rfl
+      rw [e, chunksPayload_str_blocks, (chunkReadable_spec hbs f).1] at hn
       exact ⟨by simp [payload, ht, hn], ht⟩
     | false =>
       simp only [ht, Bool.false_eq_true, if_false] at hn
-      have e : (blocks bs (f.content.drop f.pos)).map (fun d => Chunk.bytes d) = (blocks bs (f.content.drop f.pos)).map Chunk.bytes := rfl
+      have e : (chunkReadable bs f).1.map (fun d => Chunk.bytes d) = (chunkReadable bs f).1.map Chunk.bytes := rfl
       rw [e, chunksPayload_bytes_blocks] at hn
       simp at hn
   | iter cs' one =>
